@@ -315,6 +315,16 @@ func (e *Env) segsRel(a, b []Seg, prefixMode bool) (formula string, hyps []strin
 			}
 			return "false", hyps, true
 		}
+		if prefixMode && len(b) == 1 && len(a) > 0 && !(b[0].K == "be64" && a[0].K == "be64") && !(b[0].K == "lit" && a[0].K == "lit") {
+			// the prefix ends inside a variable-length piece: "a starts with b" is not an equality of pieces;
+			// it stays an uninterpreted predicate (reflexive), nothing more is claimed
+			if len(a) == 1 && a[0].K == b[0].K && a[0].T == b[0].T {
+				return tAnd(conj...), hyps, true
+			}
+			e.D.declFun("strprefix", "(declare-fun strprefix (Str Str) Bool)")
+			conj = append(conj, tApp("strprefix", e.segsTerm(a), e.segsTerm(b)))
+			return tAnd(conj...), hyps, true
+		}
 		if len(a) == 0 || len(b) == 0 {
 			rest := a
 			if len(a) == 0 {
